@@ -236,6 +236,205 @@ theorem proposers_eq_spec_partial {H cfg vals} (mixes : Nat → ByteArray) (epoc
     rw [← this]; exact hsp
   · rw [hm] at this; cases this
 
+/-! ## the `EpochsContext` lookups -/
+
+/-- what `NewEpochsContext` holds when it succeeds: the three shufflings are `ComputeShufflingEpoch` of the
+previous (`cur − 1`, or `cur` at genesis), current and next epoch, the proposers are `ComputeProposers` of the
+current epoch over its active indices -/
+theorem newEpochsContext_ok {H : ByteArray → ByteArray} {cfg : Cfg} (ok : CfgOK cfg) (vals : Array Val)
+    (mixes : Nat → ByteArray) (slot : Nat) (hv : vals.size < 2 ^ 63) (c : Ctx)
+    (h : newEpochsContext H cfg vals mixes slot = .ok c) :
+    computeShufflingEpoch H cfg vals mixes (slot / cfg.SLOTS_PER_EPOCH - 1) = .ok c.previousEpoch ∧
+    computeShufflingEpoch H cfg vals mixes (slot / cfg.SLOTS_PER_EPOCH) = .ok c.currentEpoch ∧
+    computeShufflingEpoch H cfg vals mixes (slot / cfg.SLOTS_PER_EPOCH + 1) = .ok c.nextEpoch ∧
+    c.proposersEpoch = slot / cfg.SLOTS_PER_EPOCH ∧
+    computeProposers H cfg vals mixes (slot / cfg.SLOTS_PER_EPOCH) (activeIndices vals (slot / cfg.SLOTS_PER_EPOCH)) = .ok c.proposers := by
+  have hspe : ¬ cfg.SLOTS_PER_EPOCH = 0 := by have := ok.spe_pos; omega
+  have ex : ∀ e, ∃ se, computeShufflingEpoch H cfg vals mixes e = .ok se ∧ se.epoch = e ∧
+      se.activeIndices = activeIndices vals e := fun e =>
+    ⟨_, newShufflingEpoch_ok (H := H) ok vals (getSeed H cfg mixes e DOMAIN_BEACON_ATTESTER) e hv, rfl, rfl⟩
+  unfold newEpochsContext at h
+  simp only [hspe, if_false] at h
+  generalize slot / cfg.SLOTS_PER_EPOCH = cur at h ⊢
+  obtain ⟨s0, e0, p0, a0⟩ := ex cur
+  obtain ⟨s1, e1, _, _⟩ := ex (cur - 1)
+  obtain ⟨s2, e2, _, _⟩ := ex (cur + 1)
+  rw [e0] at h
+  simp only [bind, Res.bind] at h
+  rw [p0, a0] at h
+  by_cases hg : cur - 1 = cur
+  · simp only [hg, if_true, pure] at h
+    rw [e2] at h
+    simp only at h
+    cases hp : computeProposers H cfg vals mixes cur (activeIndices vals cur) with
+    | ok ps =>
+      rw [hp] at h
+      simp only at h
+      injection h with h
+      subst h
+      rw [hg]
+      exact ⟨e0, e0, e2, rfl, rfl⟩
+    | err => rw [hp] at h; cases h
+    | panic => rw [hp] at h; cases h
+    | outOfFuel => rw [hp] at h; cases h
+  · simp only [hg, if_false] at h
+    rw [e1] at h
+    simp only at h
+    rw [e2] at h
+    simp only at h
+    cases hp : computeProposers H cfg vals mixes cur (activeIndices vals cur) with
+    | ok ps =>
+      rw [hp] at h
+      simp only at h
+      injection h with h
+      subst h
+      exact ⟨e1, e0, e2, rfl, rfl⟩
+    | err => rw [hp] at h; cases h
+    | panic => rw [hp] at h; cases h
+    | outOfFuel => rw [hp] at h; cases h
+
+theorem computeShufflingEpoch_epoch {H : ByteArray → ByteArray} {cfg : Cfg} (ok : CfgOK cfg) (vals : Array Val)
+    (mixes : Nat → ByteArray) (e : Nat) (hv : vals.size < 2 ^ 63) (se : ShufflingEpoch)
+    (h : computeShufflingEpoch H cfg vals mixes e = .ok se) : se.epoch = e := by
+  have := newShufflingEpoch_ok (H := H) ok vals (getSeed H cfg mixes e DOMAIN_BEACON_ATTESTER) e hv
+  unfold computeShufflingEpoch at h
+  rw [this] at h
+  injection h with h
+  rw [← h]
+
+/-- the epoch lookup of a context built by `NewEpochsContext`: the shuffling of the asked epoch for the previous,
+current and next epoch; an error (no panic) for every other epoch -/
+theorem ctx_getEpochComms {H : ByteArray → ByteArray} {cfg : Cfg} (ok : CfgOK cfg) (vals : Array Val)
+    (mixes : Nat → ByteArray) (slot : Nat) (hv : vals.size < 2 ^ 63) (c : Ctx)
+    (h : newEpochsContext H cfg vals mixes slot = .ok c) (epoch : Nat) :
+    (epoch = slot / cfg.SLOTS_PER_EPOCH - 1 ∨ epoch = slot / cfg.SLOTS_PER_EPOCH ∨ epoch = slot / cfg.SLOTS_PER_EPOCH + 1 →
+      ∃ se, computeShufflingEpoch H cfg vals mixes epoch = .ok se ∧ c.getEpochComms epoch = .ok se.committees) ∧
+    (¬ (epoch = slot / cfg.SLOTS_PER_EPOCH - 1 ∨ epoch = slot / cfg.SLOTS_PER_EPOCH ∨ epoch = slot / cfg.SLOTS_PER_EPOCH + 1) →
+      c.getEpochComms epoch = .err) := by
+  obtain ⟨hp, hc, hn, _, _⟩ := newEpochsContext_ok ok vals mixes slot hv c h
+  have epP := computeShufflingEpoch_epoch ok vals mixes _ hv _ hp
+  have epC := computeShufflingEpoch_epoch ok vals mixes _ hv _ hc
+  have epN := computeShufflingEpoch_epoch ok vals mixes _ hv _ hn
+  unfold Ctx.getEpochComms
+  rw [epP, epC, epN]
+  constructor
+  · intro he
+    rcases he with he | he | he
+    · subst he
+      exact ⟨_, hp, by simp⟩
+    · subst he
+      refine ⟨_, hc, ?_⟩
+      by_cases hg : slot / cfg.SLOTS_PER_EPOCH = slot / cfg.SLOTS_PER_EPOCH - 1
+      · rw [← hg] at hp
+        rw [hc] at hp; injection hp with hp
+        simp [← hg, ← hp]
+      · simp [hg]
+    · subst he
+      have g1 : ¬ slot / cfg.SLOTS_PER_EPOCH + 1 = slot / cfg.SLOTS_PER_EPOCH - 1 := by omega
+      exact ⟨_, hn, by simp [g1]⟩
+  · intro hne
+    have g1 : ¬ epoch = slot / cfg.SLOTS_PER_EPOCH - 1 := fun e => hne (Or.inl e)
+    have g2 : ¬ epoch = slot / cfg.SLOTS_PER_EPOCH := fun e => hne (Or.inr (Or.inl e))
+    have g3 : ¬ epoch = slot / cfg.SLOTS_PER_EPOCH + 1 := fun e => hne (Or.inr (Or.inr e))
+    simp [g1, g2, g3]
+
+/-- **`GetBeaconCommittee` of a context built by `NewEpochsContext` is `get_beacon_committee`** for every slot of
+the previous, current and next epoch and every committee index below the specification's committee count. -/
+theorem ctx_committee_eq_spec {H : ByteArray → ByteArray} (hH : ∀ x, (H x).size = 32) {cfg : Cfg} (ok : CfgOK cfg)
+    (hsrc : cfg.SHUFFLE_ROUND_COUNT ≤ 255) (hmax : 0 < cfg.MAX_COMMITTEES_PER_SLOT) (vals : Array Val)
+    (mixes : Nat → ByteArray) (slot : Nat) (hv : vals.size ≤ 2 ^ 40) (c : Ctx)
+    (h : newEpochsContext H cfg vals mixes slot = .ok c)
+    (epoch : Nat) (he : epoch = slot / cfg.SLOTS_PER_EPOCH - 1 ∨ epoch = slot / cfg.SLOTS_PER_EPOCH ∨
+      epoch = slot / cfg.SLOTS_PER_EPOCH + 1)
+    (s index : Nat) (hs : s < cfg.SLOTS_PER_EPOCH)
+    (hi : index < Spec.get_committee_count_per_slot cfg vals.toList epoch) :
+    c.getBeaconCommittee cfg (epoch * cfg.SLOTS_PER_EPOCH + s) index =
+      Spec.get_beacon_committee H cfg vals.toList mixes (epoch * cfg.SLOTS_PER_EPOCH + s) index := by
+  have hv63 : vals.size < 2 ^ 63 := by omega
+  obtain ⟨se', hse', hcomms⟩ := (ctx_getEpochComms ok vals mixes slot hv63 c h epoch).1 he
+  obtain ⟨se, m, hse, hm, hspec⟩ := committee_eq_spec hH ok hsrc vals mixes epoch hv s index hs hi
+  rw [hse] at hse'; injection hse' with hse'; subst hse'
+  have hidx : ¬ index ≥ cfg.MAX_COMMITTEES_PER_SLOT := by
+    unfold Spec.get_committee_count_per_slot at hi
+    omega
+  have e1 : (epoch * cfg.SLOTS_PER_EPOCH + s) / cfg.SLOTS_PER_EPOCH = epoch := by
+    rw [Nat.mul_comm, Nat.mul_add_div ok.spe_pos, Nat.div_eq_of_lt hs, Nat.add_zero]
+  have e2 : (epoch * cfg.SLOTS_PER_EPOCH + s) % cfg.SLOTS_PER_EPOCH = s := by
+    rw [Nat.mul_comm, Nat.mul_add_mod, Nat.mod_eq_of_lt hs]
+  unfold Ctx.getBeaconCommittee
+  simp only [hidx, if_false, e1, e2, hcomms, hspec]
+  cases h1 : se.committees[s]? with
+  | none => rw [h1] at hm; simp at hm
+  | some sc =>
+    rw [h1] at hm
+    simp only [Option.bind_some] at hm
+    simp only [hm]
+
+/-- **`GetCommitteeCountPerSlot` is `get_committee_count_per_slot`** for the previous, current and next epoch, and an
+error — not a panic — for every other epoch (the defect fixed in /repo commit b2763f6). -/
+theorem ctx_count_eq_spec {H : ByteArray → ByteArray} {cfg : Cfg} (ok : CfgOK cfg) (vals : Array Val)
+    (mixes : Nat → ByteArray) (slot : Nat) (hv : vals.size < 2 ^ 63) (c : Ctx)
+    (h : newEpochsContext H cfg vals mixes slot = .ok c) (epoch : Nat) :
+    (epoch = slot / cfg.SLOTS_PER_EPOCH - 1 ∨ epoch = slot / cfg.SLOTS_PER_EPOCH ∨ epoch = slot / cfg.SLOTS_PER_EPOCH + 1 →
+      c.getCommitteeCountPerSlot epoch = .ok (Spec.get_committee_count_per_slot cfg vals.toList epoch)) ∧
+    (¬ (epoch = slot / cfg.SLOTS_PER_EPOCH - 1 ∨ epoch = slot / cfg.SLOTS_PER_EPOCH ∨ epoch = slot / cfg.SLOTS_PER_EPOCH + 1) →
+      c.getCommitteeCountPerSlot epoch = .err) := by
+  obtain ⟨hin, hout⟩ := ctx_getEpochComms ok vals mixes slot hv c h epoch
+  constructor
+  · intro he
+    obtain ⟨se, hse, hcomms⟩ := hin he
+    have hex := newShufflingEpoch_ok (H := H) ok vals (getSeed H cfg mixes epoch DOMAIN_BEACON_ATTESTER) epoch hv
+    unfold computeShufflingEpoch at hse
+    rw [hex] at hse
+    injection hse with hse
+    unfold Ctx.getCommitteeCountPerSlot
+    rw [hcomms, ← hse]
+    have hcps : Spec.get_committee_count_per_slot cfg vals.toList epoch = cpsOf cfg (activeIndices vals epoch).size := by
+      unfold Spec.get_committee_count_per_slot cpsOf
+      rw [← Zrnt.Proofs.Committees.activeIndices_eq_spec, Array.length_toList]
+    have := ok.spe_pos
+    simp [this, hcps]
+  · intro hne
+    unfold Ctx.getCommitteeCountPerSlot
+    rw [hout hne]
+
+/-- the standing assumptions of the sampling theorems hold for the active set of any epoch with an active validator -/
+theorem sampleOK_active {H : ByteArray → ByteArray} (hH : ∀ x, (H x).size = 32) {cfg : Cfg}
+    (hsrc : cfg.SHUFFLE_ROUND_COUNT ≤ 255) (vals : Array Val) (hv : vals.size ≤ 2 ^ 40) (e : Nat)
+    (hne : 0 < (activeIndices vals e).size) : SampleOK H cfg vals (activeIndices vals e) :=
+  ⟨hH, hsrc, hne, by have := size_activeIndices_le vals e; omega, fun k hk =>
+    ((mem_activeIndices vals e _).mp (by
+      rw [← Array.getElem_toList (h := by simpa using hk)]; exact List.getElem_mem _)).1⟩
+
+/-- **`GetBeaconProposer` of a context built by `NewEpochsContext` is `get_beacon_proposer_index`** for every slot
+of the current epoch (the specification's loop, allowed at least 32 000 iterations, stops at that index).
+Partial as `proposer_eq_spec_partial`: `NewEpochsContext` fails instead if some slot's first 32 000 candidates
+are all rejected. -/
+theorem ctx_proposer_eq_spec_partial {H : ByteArray → ByteArray} (hH : ∀ x, (H x).size = 32) {cfg : Cfg} (ok : CfgOK cfg)
+    (hsrc : cfg.SHUFFLE_ROUND_COUNT ≤ 255) (vals : Array Val) (mixes : Nat → ByteArray) (slot : Nat)
+    (hv : vals.size ≤ 2 ^ 40) (c : Ctx) (h : newEpochsContext H cfg vals mixes slot = .ok c)
+    (s : Nat) (hs : s < cfg.SLOTS_PER_EPOCH) (extraFuel : Nat) :
+    ∃ p, c.getBeaconProposer cfg (slot / cfg.SLOTS_PER_EPOCH * cfg.SLOTS_PER_EPOCH + s) = .ok p ∧
+      Spec.get_beacon_proposer_index H cfg vals.toList mixes (slot / cfg.SLOTS_PER_EPOCH * cfg.SLOTS_PER_EPOCH + s)
+        (32000 + extraFuel) = .ok p := by
+  have hv63 : vals.size < 2 ^ 63 := by omega
+  obtain ⟨_, _, _, hpe, hps⟩ := newEpochsContext_ok ok vals mixes slot hv63 c h
+  have hne : 0 < (activeIndices vals (slot / cfg.SLOTS_PER_EPOCH)).size := by
+    rcases Nat.eq_zero_or_pos (activeIndices vals (slot / cfg.SLOTS_PER_EPOCH)).size with h0 | h0
+    · unfold computeProposers at hps
+      simp only [h0, if_true] at hps
+      cases hps
+    · exact h0
+  have sok := sampleOK_active hH hsrc vals hv (slot / cfg.SLOTS_PER_EPOCH) hne
+  obtain ⟨hlen, hget⟩ := proposers_eq_spec_partial mixes (slot / cfg.SLOTS_PER_EPOCH) ok.spe_pos sok c.proposers hps extraFuel
+  have e1 : (slot / cfg.SLOTS_PER_EPOCH * cfg.SLOTS_PER_EPOCH + s) / cfg.SLOTS_PER_EPOCH = slot / cfg.SLOTS_PER_EPOCH := by
+    rw [Nat.mul_comm, Nat.mul_add_div ok.spe_pos, Nat.div_eq_of_lt hs, Nat.add_zero]
+  have e2 : (slot / cfg.SLOTS_PER_EPOCH * cfg.SLOTS_PER_EPOCH + s) % cfg.SLOTS_PER_EPOCH = s := by
+    rw [Nat.mul_comm, Nat.mul_add_mod, Nat.mod_eq_of_lt hs]
+  refine ⟨c.proposers[s]'(by omega), ?_, hget s hs (by omega)⟩
+  unfold Ctx.getBeaconProposer
+  simp only [e1, e2, hpe, ne_eq, not_true_eq_false, if_false]
+  rw [List.getElem?_eq_getElem (by omega)]
 /-! ## non-vacuity: the hypotheses are satisfiable -/
 
 /-- a small configuration (the "minimal" preset's committee constants) -/
